@@ -109,12 +109,12 @@ func TestC13P384(t *testing.T) {
 	defer vlib.Done()
 	selftest(t)
 	ad := p384Adapter()
-	runAdapter(t, ad, 250, 2500)
+	runAdapter(t, ad, 250, 1000)
 	// scalars given with other byte lengths (elliptic.Curve takes a big-endian number of any length)
 	t.Run("p384-scalar-lengths", func(t *testing.T) {
 		c := p384.P384()
 		sub := "grouplaw/p384/scalar-length"
-		vlib.Check(t, vlib.N(60, 600), func(t *rapid.T) {
+		vlib.Check(t, vlib.N(60, 240), func(t *rapid.T) {
 			n := rapid.SampledFrom([]int{0, 1, 2, 47, 49, 64, 66, 96}).Draw(t, "len")
 			kb := vlib.EdgeBytes(t, n, "k")
 			b, _ := drawExp(t, ad, "b")
@@ -153,7 +153,7 @@ func TestC13P384(t *testing.T) {
 	t.Run("p384-membership", func(t *testing.T) {
 		c := p384.P384()
 		sub := "grouplaw/p384/membership"
-		vlib.Check(t, vlib.N(60, 600), func(t *rapid.T) {
+		vlib.Check(t, vlib.N(60, 240), func(t *rapid.T) {
 			a, _ := drawExp(t, ad, "a")
 			vlib.Eval(sub)
 			P := ad.mk(a).(xy)
@@ -233,12 +233,12 @@ func TestC13GroupNIST(t *testing.T) {
 		div int
 	}{{group.P256, curves.P256, elliptic.P256(), 1}, {group.P384, curves.P384, elliptic.P384(), 1}, {group.P521, curves.P521, elliptic.P521(), 2}} {
 		ad := nistGroupAdapter(x.g, x.ref)
-		runAdapter(t, ad, 150/x.div, 1500/x.div)
+		runAdapter(t, ad, 150/x.div, 600/x.div)
 		// generator, identity and SetBigInt scalars
 		g, ref, ec := x.g, x.ref, x.ec
 		t.Run(ad.name+"-api", func(t *testing.T) {
 			sub := "grouplaw/" + ad.name + "/api"
-			vlib.Check(t, vlib.N(40, 400), func(t *rapid.T) {
+			vlib.Check(t, vlib.N(40, 160), func(t *rapid.T) {
 				k, kcls := drawScalar(t, ad, "k")
 				vlib.Eval(sub)
 				vlib.Class(sub, kcls)
